@@ -331,6 +331,44 @@ func runC10(r *engine.Run) {
 	// encryption calls read the frame; the elements of the queue behind the part handed over stay the
 	// caller's
 	spQ := (&engine.Space{}).Dim("fopts taken from the queue:0..2", 3).Dim("fopts spare:0..3", 4).Dim("frmpayload items:0..2", 3).Dim("frmpayload spare:0..2", 3).Dim("direction", 2).Dim("operation{MarshalBinary, MarshalText, MACPayload.MarshalBinary, SetMIC, ValidateMIC, EncryptFRMPayload, EncryptFOpts}", 7)
+	// the text form is a caller's buffer too (encoding/json hands UnmarshalText a window into the document):
+	// decoding leaves it as it is, also when it carries the line breaks base64 tolerates
+	r.PartDims("source-text/UnmarshalText", []string{fmt.Sprintf("frame:%d", len(frames)), "text{as encoded, CR LF after 8 characters, LF at the end}"}, uint64(len(frames)*3), func(c *engine.Case) {
+		fr := frames[c.Index%uint64(len(frames))]
+		var p lorawan.PHYPayload
+		if err := p.UnmarshalBinary(append([]byte(nil), fr.wire...)); err != nil {
+			return
+		}
+		text, err := p.MarshalText()
+		if err != nil {
+			return
+		}
+		switch c.Index / uint64(len(frames)) {
+		case 1:
+			if len(text) > 8 {
+				text = append(append(append([]byte(nil), text[:8]...), '\r', '\n'), text[8:]...)
+			}
+		case 2:
+			text = append(append([]byte(nil), text...), '\n')
+		}
+		arena := make([]byte, 8+len(text)+8)
+		for i := range arena {
+			arena[i] = 0xC3
+		}
+		copy(arena[8:], text)
+		before := append([]byte(nil), arena...)
+		var q lorawan.PHYPayload
+		err1 := q.UnmarshalText(arena[8 : 8+len(text) : 8+len(text)+8])
+		c.NonTrivial()
+		if !bytes.Equal(arena, before) {
+			c.Fail("source-text/modified", fmt.Sprintf("UnmarshalText (err %v) of %q left the caller's buffer as %q", err1, before[8:8+len(text)], arena[8:8+len(text)]), nil)
+			return
+		}
+		var q2 lorawan.PHYPayload
+		if err2 := q2.UnmarshalText(arena[8 : 8+len(text)]); (err1 == nil) != (err2 == nil) || err1 == nil && deepPrint(q) != deepPrint(q2) {
+			c.Fail("source-text/second-decode-differs", fmt.Sprintf("%q decoded twice: err %v then %v", text, err1, err2), nil)
+		}
+	})
 	r.PartDims("payload-list-spare-capacity", spQ.Desc(), spQ.N(), func(c *engine.Case) {
 		var ch [6]int
 		spQ.Decode(c.Index, ch[:])
